@@ -767,12 +767,13 @@ def main():
                 illcond[k] = illcond.get(k, 0) + v
             names.update(nm)
             allfail.extend(failures)
-    emit_failures(rep, allfail)
     if illcond:
         rep.skip("comparisons discarded as ill-conditioned (see rule): %s" % json.dumps(illcond, sort_keys=True))
     missing = sorted({m.name for m in measures} - names)
     if missing:
-        rep.fail("coverage/never-evaluated", {"measures": missing}, "registered but never evaluated")
+        allfail.append(("coverage/never-evaluated", {"measures": missing},
+                        "registered but never evaluated: %s" % missing))
+    emit_failures(rep, allfail)
     if herr:
         sys.stderr.write(herr[0] + "\n")
         rep.failures.insert(0, {"check": "harness/error", "witness": {"n": len(herr)}, "detail": herr[0][-600:]})
